@@ -7,6 +7,8 @@ mod interpreter;
 pub mod stdlib;
 mod to_result;
 mod unary_operator;
+#[cfg(feature = "verif")]
+pub mod verif;
 pub mod variable;
 pub use simplesl_macros::{var, var_type};
 use std::fmt::{Debug, Display};
